@@ -58,8 +58,11 @@ type simDisk struct {
 	failAt      map[int]error // op index -> injected error (operation not performed)
 	failed      []string
 	fullAfter   int64 // ENOSPC once total bytes exceed this (0 = unlimited)
-	opLog       []string
-	keepLog     bool
+	// readFailIn > 0: the readFailIn-th next read of a table file (*.sst) fails once with an I/O error
+	readFailIn int
+	readFailed int
+	opLog      []string
+	keepLog    bool
 	// namespace operations since the directory was last synced, in order (per simulated disk there
 	// is one data directory): a crash keeps a prefix of them (journalled file systems order
 	// directory operations; pebble relies on that)
@@ -585,9 +588,27 @@ type sdFile struct {
 
 func (f *sdFile) Close() error { return nil }
 
+// readFault (d.mu held): true when this read of a table file is the one chosen to fail.
+func (f *sdFile) readFault() bool {
+	if f.d.readFailIn == 0 || !strings.HasSuffix(f.name, ".sst") {
+		return false
+	}
+	f.d.readFailIn--
+	if f.d.readFailIn != 0 {
+		return false
+	}
+	f.d.readFailed++
+	return true
+}
+
+var errSimRead = errors.New("simdisk: injected read error: input/output error")
+
 func (f *sdFile) Read(p []byte) (int, error) {
 	f.d.mu.Lock()
 	defer f.d.mu.Unlock()
+	if f.readFault() {
+		return 0, errSimRead
+	}
 	if f.rpos >= len(f.n.data) {
 		return 0, io.EOF
 	}
@@ -599,6 +620,9 @@ func (f *sdFile) Read(p []byte) (int, error) {
 func (f *sdFile) ReadAt(p []byte, off int64) (int, error) {
 	f.d.mu.Lock()
 	defer f.d.mu.Unlock()
+	if f.readFault() {
+		return 0, errSimRead
+	}
 	if off >= int64(len(f.n.data)) {
 		return 0, io.EOF
 	}
